@@ -222,8 +222,8 @@ Definition prom_of_addr (l : list (Z * Z)) (a : Z) : option Z :=
   match findb (fun x => fst x =? a) l with Some x => Some (snd x) | None => None end.
 
 (* keeper/msg_server_promoter.go CreatePromoter (+ MsgCreatePromoter.ValidateBasic, CreatePromoterPayload.Validate).
-   Questionable, reproduced: an address that already belongs to a promoter may create another one; the
-   by-address entry is overwritten and the older promoter keeps the address in its list. *)
+   As of /repo commit 6834bf6 an address that already belongs to a promoter (IsPromoter: it has a by-address
+   entry) cannot create another one, so SetPromoterByAddress below always adds a fresh key. *)
 Definition create_promoter (s : rstate) (signer : Z) (tk : ticket) (uid : Z) (conf : list (Z * Z)) : option rstate :=
   if negb (rticket_ok s tk) then None
   else match find_prom (r_proms s) uid with
@@ -231,9 +231,12 @@ Definition create_promoter (s : rstate) (signer : Z) (tk : ticket) (uid : Z) (co
   | None =>
       if uid <? 0 then None                                   (* utils.IsValidUID *)
       else if negb (conf_valid [] conf) then None
-      else
-        let p := {| pm_uid := uid; pm_creator := signer; pm_addrs := [signer]; pm_conf := conf |} in
-        Some (set_proms s (r_proms s ++ [p]) (upd (fun x => fst x =? signer) (signer, uid) (r_promaddr s)))
+      else match prom_of_addr (r_promaddr s) signer with      (* IsPromoter(msg.Creator) *)
+      | Some _ => None
+      | None =>
+          let p := {| pm_uid := uid; pm_creator := signer; pm_addrs := [signer]; pm_conf := conf |} in
+          Some (set_proms s (r_proms s ++ [p]) (upd (fun x => fst x =? signer) (signer, uid) (r_promaddr s)))
+      end
   end.
 
 (* keeper/msg_server_promoter.go SetPromoterConf *)
